@@ -202,7 +202,12 @@ func genC03(t *rapid.T) any {
 		}
 		c.Aggs = append(c.Aggs, it)
 	}
-	if rapid.IntRange(0, 3).Draw(t, "sameleaf") == 0 {
+	// a select list of grouping columns only: HAVING (and the partition itself) still ranges over all members
+	keysOnly := c.Shape == "group" && rapid.IntRange(0, 4).Draw(t, "keysonly") == 0
+	if keysOnly {
+		c.Aggs = nil
+	}
+	if !keysOnly && rapid.IntRange(0, 3).Draw(t, "sameleaf") == 0 {
 		// the same aggregate over two columns that share their last path element (ox.v / oy.v): each call ranges
 		// over its own argument
 		for r, row := range rows {
@@ -265,7 +270,7 @@ func genC03(t *rapid.T) any {
 				}
 			}
 		}
-		if c.ShowAs == nil && rapid.IntRange(0, 2).Draw(t, "hashaving") == 0 {
+		if c.ShowAs == nil && (rapid.IntRange(0, 2).Draw(t, "hashaving") == 0 || (keysOnly && rapid.IntRange(0, 3).Draw(t, "keysonly.having") != 0)) {
 			c.Having = genHaving(t, &sch, c.GroupCols, rapid.IntRange(0, 2).Draw(t, "hdepth"), "h")
 		}
 	}
@@ -586,6 +591,9 @@ func checkC03(c *C03Case) Result {
 	}
 	if c.Star {
 		res.Labels = append(res.Labels, "star")
+	}
+	if len(c.Aggs) == 0 {
+		res.Labels = append(res.Labels, "keys-only-select-list")
 	}
 	for g, as := range c.ShowAs {
 		if strings.HasPrefix(as, "k_") {
